@@ -441,6 +441,9 @@ def shards(tier, seed):
     out += [{"name": f"rand{i}", "kind": "rand", "i": i, "count": 150 if tier == "quick" else 4000,
              "budget_s": 90 if tier == "quick" else 1200} for i in range(NSHARDS)]
     out.append({"name": "known-probe", "kind": "probe", "budget_s": 30})
+    # random cases once more under `python -O`: filtering must not depend on side effects of assert statements
+    out += [{"name": f"opt{i}", "kind": "rand", "i": 300 + i, "count": 100 if tier == "quick" else 2000, "pyopt": True,
+             "budget_s": 90 if tier == "quick" else 1200} for i in range(2)]
     return out
 
 
@@ -487,7 +490,7 @@ def run_shard(spec, res):
             assign = "".join(rng.choices(V, weights=w, k=n))
             run_case({"f": gen.code(f), "assign": assign, "form": rng.choice(["ret", "raise", "stopiter"]),
                       "start": rng.choice([-1, -1, rng.randrange(n)]), "lab": rng.choice(["uniq", "eqsib", "clones", "fwd", "ext"]),
-                      "lseed": rng.randrange(10**6), "typed": rng.random() < 0.25}, res)
+                      "lseed": rng.randrange(10**6), "typed": rng.random() < 0.25, **({"pyopt": True} if spec.get("pyopt") else {})}, res)
             if res.expired():
                 break
 
